@@ -895,6 +895,15 @@ func verifCls(err error) string {
 	return "other:" + m
 }
 
+// verifScribble overwrites, in place, every byte an encoder handed out (what a careless caller may do)
+func verifScribble(v any) {
+	if b, ok := v.([]byte); ok {
+		for i := range b {
+			b[i] = '#'
+		}
+	}
+}
+
 func verifRes(err error, t %(T)s) string {
 	if err == nil {
 		return "ok " + verifDec(t)
@@ -944,7 +953,30 @@ func verifRes(err error, t %(T)s) string {
 		emit("json.dec:"+strconv.Itoa(j), verifRes(err, t))
 		emit("json.cls:"+strconv.Itoa(j), verifCls(err))
 	}
-''' % ", ".join(gostr(t) for t, _ in jsons))
+	// history: scribble over everything MarshalJSON / json.Marshal handed out, then encode and round-trip again
+	for _, x := range append(append([]%s{}, encs...), decl...) {
+		b, _ := json.Marshaler(x).MarshalJSON()
+		verifScribble(b)
+		b, _ = json.Marshal(x)
+		verifScribble(b)
+	}
+	for _, x := range encs {
+		b, err := json.Marshaler(x).MarshalJSON()
+		var s string
+		if err != nil {
+			s = "error:" + err.Error()
+		} else if e2 := json.Unmarshal(b, &s); e2 != nil {
+			s = "raw:" + string(b)
+		}
+		emit("json.enc2:"+verifDec(x), s)
+	}
+	for _, x := range decl {
+		b, _ := json.Marshal(x)
+		t := target
+		err := json.Unmarshal(b, &t)
+		emit("json.rt2:"+verifDec(x), verifRes(err, t))
+	}
+''' % (", ".join(gostr(t) for t, _ in jsons), T))
     if "text" in flags:
         src.append('''	for _, x := range encs {
 		b, err := encoding.TextMarshaler(x).MarshalText()
@@ -966,7 +998,30 @@ func verifRes(err error, t %(T)s) string {
 		emit("text.dec:"+strconv.Itoa(j), verifRes(err, t))
 		emit("text.cls:"+strconv.Itoa(j), verifCls(err))
 	}
-''')
+	// history: scribble over every []byte MarshalText handed out (also through json.Marshal, which uses it when there is no
+	// MarshalJSON), then encode and round-trip again
+	for _, x := range append(append([]%s{}, encs...), decl...) {
+		b, _ := encoding.TextMarshaler(x).MarshalText()
+		verifScribble(b)
+		b, _ = json.Marshal(x)
+		verifScribble(b)
+	}
+	for _, x := range encs {
+		b, err := encoding.TextMarshaler(x).MarshalText()
+		s := string(b)
+		if err != nil {
+			s = "error:" + err.Error()
+		}
+		emit("text.enc2:"+verifDec(x), s)
+	}
+	for _, x := range decl {
+		b, _ := encoding.TextMarshaler(x).MarshalText()
+		t := target
+		err := encoding.TextUnmarshaler(&t).UnmarshalText(b)
+		emit("text.rt2:"+verifDec(x), verifRes(err, t))
+		verifScribble(b)
+	}
+''' % T)
     if "sql" in flags:
         src.append('''	for _, x := range encs {
 		v, err := driver.DefaultParameterConverter.ConvertValue(x)
@@ -991,7 +1046,33 @@ func verifRes(err error, t %(T)s) string {
 		emit("sql.dec:"+strconv.Itoa(j), verifRes(err, t))
 		emit("sql.cls:"+strconv.Itoa(j), verifCls(err))
 	}
-''' % ", ".join(e for e, _ in sqls))
+	// history: scribble over what Value() handed out (should it ever be bytes) and over the bytes given to Scan, then again
+	for _, x := range append(append([]%s{}, encs...), decl...) {
+		v, _ := driver.Valuer(x).Value()
+		verifScribble(v)
+	}
+	for _, x := range encs {
+		v, err := driver.DefaultParameterConverter.ConvertValue(x)
+		s, ok := v.(string)
+		if err != nil {
+			s = "error:" + err.Error()
+		} else if b, isb := v.([]byte); isb {
+			s = string(b)
+		} else if !ok {
+			s = "nonstring"
+		}
+		emit("sql.enc2:"+verifDec(x), s)
+	}
+	for _, x := range decl {
+		v, _ := driver.Valuer(x).Value()
+		s, _ := v.(string)
+		b := []byte(s)
+		t := target
+		err := sql.Scanner(&t).Scan(b)
+		verifScribble(b)
+		emit("sql.rt2:"+verifDec(x), verifRes(err, t))
+	}
+''' % (", ".join(e for e, _ in sqls), T))
     if "sql" in flags:
         # the pair through the driver.Value it produces itself, and Go strings in general (case <id>v)
         src.append('''	for _, x := range decl {
